@@ -7,7 +7,7 @@ cd "$S/repo" || exit 2
 LOG="$S/logs/$H.log"; mkdir -p "$S/logs"
 ulimit -v $((M*1024*1024))
 START=$(date +%s)
-CARGO_NET_OFFLINE=true timeout "$T" cargo kani --no-default-features -Z stubbing -Z unstable-options \
+PATH=/verif/tools/shim:$PATH CARGO_NET_OFFLINE=true timeout "$T" cargo kani --no-default-features -Z stubbing -Z unstable-options \
   --no-memory-safety-checks --target-dir "$S/target" --harness "$H" "$@" > "$LOG" 2>&1
 RC=$?
 END=$(date +%s)
